@@ -114,6 +114,9 @@ def h_spline(ctx):
         if cfg.get("explicit_forces"):
             # forces at the data points, handed over explicitly (copies, in the data's shape)
             fkw["force_coords"] = (e.copy(), n.copy())
+            if cfg["explicit_forces"] == "reversed":
+                # the same locations listed in another order than the data: still one force per data point
+                fkw["force_coords"] = (e.ravel()[::-1].copy(), n.ravel()[::-1].copy())
         if cfg["kind"] == "spline":
             est = vd.Spline(mindist=cfg.get("mindist"), **fkw)
             ncomp = 1
@@ -147,7 +150,8 @@ def h_spline(ctx):
         est.fit((e, n), darg, warg)
     fc = est.force_coords_ if cfg["kind"] == "spline" else est.force_coords
     if cfg.get("explicit_forces"):
-        ctx.claim("explicitly given force coordinates are used as given", And(len(fc) == 2, And([eq(a, b) for a, b in zip(np.ravel(fc[0]), e.ravel())]), And([eq(a, b) for a, b in zip(np.ravel(fc[1]), n.ravel())])))
+        order = slice(None, None, -1) if cfg["explicit_forces"] == "reversed" else slice(None)
+        ctx.claim("explicitly given force coordinates are used as given", And(len(fc) == 2, And([eq(a, b) for a, b in zip(np.ravel(fc[0]), e.ravel()[order])]), And([eq(a, b) for a, b in zip(np.ravel(fc[1]), n.ravel()[order])])))
     else:
         ctx.claim("forces are placed at the raveled data coordinates", And(len(fc) == 2, np.shape(fc[0]) == (npts,), And([eq(a, b) for a, b in zip(fc[0], e.ravel())]), And([eq(a, b) for a, b in zip(fc[1], n.ravel())])))
     ctx.claim("force coordinates are copies, not the caller's arrays", And(fc[0] is not e, fc[1] is not n, not np.shares_memory(np.asarray(fc[0], dtype=float), e), not np.shares_memory(np.asarray(fc[1], dtype=float), n)))
@@ -336,6 +340,8 @@ def _cfg_spline(tier, seed):
         {"kind": "spline", "layout": "generic3", "first": "generic4"},
         {"kind": "spline", "layout": "generic4", "explicit_forces": True, "shape": (2, 2)},
         {"kind": "vector", "layout": "generic4", "poisson": 0.25, "mindist": 0.5, "explicit_forces": True, "shape": (2, 2)},
+        {"kind": "vector", "layout": "generic3", "poisson": 0.5, "mindist": 1.0, "explicit_forces": "reversed"},
+        {"kind": "spline", "layout": "generic4", "explicit_forces": "reversed"},
     ]
     if tier == "thorough":
         for lay in LAYOUTS:
